@@ -141,7 +141,7 @@ func runC08(w *World) *Result {
 	r := NewResult("C08")
 	r.Explanation = "Decides, for the Bash back end, the lexical context of every emitted hole that can carry user string data (STR/PROG classes): every line template of every converter method and helper routine is extracted from the converter's SSA by an abstract interpretation in a template domain and scanned with a Bash lexical scanner (quote state, command word, eval scope, echo option position); positional parameters of helper routines are linked to the classes passed at their call templates; the literal-text conversion function must neutralise the characters active inside double quotes. This is a necessary condition per (emitting site, hole) for string opacity."
 	r.NotDecided = "byte-for-byte fidelity of values at run time (what bash does with the emitted lines); embedded newlines in echo; locale effects."
-	rq := r.Rule("R-C08-quote", "every STR/PROG hole of every Bash line template sits in a double-quoted word at its innermost lexical level, outside eval arguments, not as echo's first argument, not in command position, and its quoting does not depend on the data", 20)
+	rq := r.Rule("R-C08-quote", "every STR/PROG hole of every Bash line template sits in a double-quoted word at its innermost lexical level, outside eval arguments, not as echo's first argument, not in command position, and its quoting does not depend on the data", 8)
 	re := r.Rule("R-C08-escape", "the Bash literal-text conversion neutralises \\ \" $ and backquote; in both back ends no replacement of the conversion chain rewrites text an earlier one introduced", 3)
 	rr := r.Rule("R-C08-roundtrip", "no array element / run-time value is read back through an unquoted echo inside eval, and read uses -r", 2)
 	_ = rq
@@ -149,7 +149,7 @@ func runC08(w *World) *Result {
 	_ = rr
 	EscapeOrderRule(w, "bash", r, "R-C08-escape")
 	EscapeOrderRule(w, "batch", r, "R-C08-escape")
-	r.Rule("R-C08-atom", "every value-producing method hands back one unit of shell text (one expansion, one literal, the value it was handed)", 10)
+	r.Rule("R-C08-atom", "every value-producing method hands back one unit of shell text (one expansion, one literal, the value it was handed)", 6)
 	if ab, err := BuildBackend(w, "bash"); err == nil {
 		ValueAtomRule(w, ab, r, "R-C08-atom")
 	}
